@@ -638,11 +638,16 @@ REAL_DH_GROUPS = [(256, RFC5114_P, RFC5114_G), (260, RFC5114_P, RFC5114_G), (256
 def real_cases(ctx: Ctx, n):
     """(hid, mode, seed, sec_alg, priv_bits, public structure builder) for the implementation with real crypto"""
 
+    # one L2 seed serves a block of 16 consecutive cases (4 hashes x 4 modes) IN ONE PROCESS: anything the library remembers about
+    # a seed across calls (a memo keyed without the hash or the algorithm) then meets the same seed under the other configurations
     out = []
+    seed = b""
     for k in range(n):
         hid = 1 + k % 4
         mode = ["nonce", "dh", "P256", "P384"][(k // 4) % 4]
-        out.append((hid, mode, rb(ctx, 64)))
+        if k % 16 == 0:
+            seed = rb(ctx, 64)
+        out.append((hid, mode, seed))
     return out
 
 
